@@ -1735,7 +1735,7 @@ func (t *dnTr) recMeasure(fd *ast.FuncDecl, f *types.Func, fn *dnFunc) (int, int
 // the functions of layer_dns.go the DNS models describe
 var dnCandidates = []struct{ recv, name string }{
 	{"", "decodeName"}, {"", "DecodeQuestion"}, {"DNSEntry", "DecodeAnswers"}, {"DNSEntry", "decodeRRs"},
-	{"", "encodeName"}, {"", "EncodeDNSQuery"}, {"", "encode"},
+	{"", "encodeName"}, {"", "EncodeDNSQuery"}, {"", "encode"}, {"", "NewDNSEntry"},
 }
 
 var dnAssumptionText = map[string]string{
